@@ -2,6 +2,8 @@
 import numpy as np
 from hypothesis import strategies as st
 
+from mv import hperm
+
 from mv import gen_geom, geom, mf, ref_match
 from mv.runner import HypPart, Violation
 
@@ -110,12 +112,12 @@ def edit_case(draw):
     N = len(case["spos"])
     types = list(dict.fromkeys(case["sels"]))
     edits = []
-    for _ in range(draw(st.integers(1, 3))):
+    for _ in range(draw(hperm.integers(1, 3))):
         kind = draw(st.sampled_from(["retype", "retype", "swap-positions"]))
         if kind == "retype":
-            edits.append(["retype", draw(st.integers(0, N - 1)), draw(st.integers(0, len(types) - 1))])
+            edits.append(["retype", draw(hperm.integers(0, N - 1)), draw(hperm.integers(0, len(types) - 1))])
         else:
-            edits.append(["swap-positions", draw(st.integers(0, N - 1)), draw(st.integers(0, N - 1))])
+            edits.append(["swap-positions", draw(hperm.integers(0, N - 1)), draw(hperm.integers(0, N - 1))])
     case["edits"] = edits
     return case
 
